@@ -1367,7 +1367,7 @@ selftest(
            "            with self._unscaled_context(residuals=[self._residuals]):\n                self._compute_wrapper()", 'C08.enclose'),
     Mutant('enclose-solve-linear', _IC, "            with self._unscaled_context(outputs=[d_outputs], residuals=[d_residuals]):\n                # set appropriate",
            "            with self._unscaled_context(outputs=[d_outputs]):\n                # set appropriate", 'C08.enclose'),
-    Mutant('enclose-linearize', _IC, "            with self._unscaled_context(outputs=[self._outputs]):\n                # Computing the approximation",
+    Mutant('enclose-linearize', _IC, "            with self._unscaled_context(outputs=[self._outputs], residuals=[self._residuals]):\n                # Computing the approximation",
            "            if True:\n                # Computing the approximation", 'C08.enclose'),
     Mutant('state-F11', _EC, "            with self._unscaled_context(outputs=[self._outputs, d_outputs],\n                                        residuals=[d_residuals]):",
            "            with self._unscaled_context(outputs=[self._outputs],\n                                        residuals=[d_residuals]):", 'C08.state'),
